@@ -124,6 +124,12 @@ def finish (c : Ctx) (v : α) : Ctx × Res α :=
   | some x => (c, .error x)
   | none => (c, .ok v)
 
+/-- sequencing inside one Python function: an exception ends the function, the context keeps what it collected -/
+def andThen (r : Ctx × Res α) (k : Ctx → α → Ctx × Res β) : Ctx × Res β :=
+  match r with
+  | (c, .ok a) => k c a
+  | (c, .error x) => (c, .error x)
+
 /-! ### the shape shared by all parse loops
 
 One iteration either has nothing to report, or calls `context.handle_error(e)` and — when that does
@@ -237,15 +243,11 @@ def parseTuple (rec : P) (ts : List Ty) (c : Ctx) (v : Val) : Ctx × Res Val :=
   -- :1895-1899
   let excess := if xs.length > ts.length && (c.o.addition == some false || c.o.ndl)
                 then List.range' ts.length (xs.length - ts.length) else []
-  match runLoop (fun (_ : Unit) (i : Nat) => Step.report { kind := .tupleExceed, item := some (toString i) } ()) c excess () with
-  | (c1, .error x) => (c1, .error x)
-  | (c1, .ok _) =>
-    match runLoop (tupleStep rec c.mode c.o xs) c1 ts.zipIdx [] with
-    | (c2, .error x) => (c2, .error x)
-    | (c2, .ok acc) =>
-      -- :1924-1944 `if options.addition:` — True keeps the rest (a type is outside the fragment)
-      let acc' := if c.o.addition == some true then acc ++ xs.drop ts.length else acc
-      (c2, .ok (.seq 1 acc'))
+  andThen (runLoop (fun (_ : Unit) (i : Nat) => Step.report { kind := .tupleExceed, item := some (toString i) } ()) c excess ())
+    fun c1 _ =>
+  andThen (runLoop (tupleStep rec c.mode c.o xs) c1 ts.zipIdx []) fun c2 acc =>
+    -- :1924-1944 `if options.addition:` — True keeps the rest (a type is outside the fragment)
+    (c2, .ok (.seq 1 (if c.o.addition == some true then acc ++ xs.drop ts.length else acc)))
 
 /-- one iteration of `_parse_map_args` (rule.py:1992-2033) -/
 def mapStep (rec : P) (K : Ty) (V : Option Ty) (m : Mode) (o : Opts)
@@ -273,14 +275,10 @@ def mapStep (rec : P) (K : Ty) (V : Option Ty) (m : Mode) (o : Opts)
 def parseArgs (rec : P) (kind : ArgKind) (args : List Ty) (c : Ctx) (v : Val) : Ctx × Res Val :=
   match kind, args with
   | .seq tag, T :: _ =>
-    match runLoop (seqStep rec T c.mode c.o) c v.elems.zipIdx [] with
-    | (c1, .error x) => (c1, .error x)
-    | (c1, .ok acc) => (c1, .ok (.seq tag acc))
+    andThen (runLoop (seqStep rec T c.mode c.o) c v.elems.zipIdx []) fun c1 acc => (c1, .ok (.seq tag acc))
   | .tuple, ts => parseTuple rec ts c v
   | .map, K :: rest =>
-    match runLoop (mapStep rec K rest.head? c.mode c.o) c v.pairs [] with
-    | (c1, .error x) => (c1, .error x)
-    | (c1, .ok acc) => (c1, .ok (.map acc))
+    andThen (runLoop (mapStep rec K rest.head? c.mode c.o) c v.pairs []) fun c1 acc => (c1, .ok (.map acc))
   | _, _ => (c, .ok v)
 
 /-- one validator (rule.py:1727-1741): a failing validator leaves the value as it was -/
@@ -300,12 +298,9 @@ def parseRule (W : World) (rec : P) (origin : Ty) (kind : ArgKind) (args : List 
   | (c1, .ok v1) =>
     if W.isNone v1 then (c1, .ok v1)            -- :1710-1714
     else
-      match parseArgs rec kind args c1 v1 with
-      | (c2, .error x) => (c2, .error x)
-      | (c2, .ok v2) =>
-        match runLoop (checkStep W) c2 cons v2 with
-        | (c3, .error x) => (c3, .error x)
-        | (c3, .ok v3) => finish c3 v3          -- :1746
+      andThen (parseArgs rec kind args c1 v1) fun c2 v2 =>
+      andThen (runLoop (checkStep W) c2 cons v2) fun c3 v3 =>
+      finish c3 v3                                -- :1746
 
 /-! ### logical_parse (rule.py:359-470) -/
 
@@ -334,20 +329,23 @@ def anyLoop (rec : P) (ov : Override) (v : Val) : Ctx → List Ty → Ctx × Opt
     | .ok r => (c.clearTmp, some r)
     | .error e => anyLoop rec ov v (c.collectTmp e.toErr) ts
 
+/-- a union stage that runs only under its guard -/
+def stage (rec : P) (on : Bool) (ov : Override) (v : Val) (c : Ctx) (ts : List Ty) : Ctx × Option Val :=
+  if on then anyLoop rec ov v c ts else (c, none)
+
+/-- `return val` out of a stage, or go on -/
+def orElse (s : Ctx × Option Val) (k : Ctx → Ctx × Res Val) : Ctx × Res Val :=
+  match s with
+  | (c, some r) => (c, .ok r)
+  | (c, none) => k c
+
 def parseAny (W : World) (rec : P) (ts : List Ty) (c : Ctx) (v : Val) : Ctx × Res Val :=
-  if ts.any (exactTy W v) then (c, .ok v)                       -- :377-379
+  if ts.any (exactTy W v) then (c, .ok v)                                    -- :377-379
   else
-    let s2 := if !c.o.ndl || !c.o.nec then anyLoop rec .strict v c ts else (c, none)       -- :382-395
-    match s2 with
-    | (c2, some r) => (c2, .ok r)
-    | (c2, none) =>
-      let s3 := if !c.o.ndl && !c.o.nec then anyLoop rec .noLoss v c2 ts else (c2, none)   -- :399-411
-      match s3 with
-      | (c3, some r) => (c3, .ok r)
-      | (c3, none) =>
-        match anyLoop rec .none v c3 ts with                                               -- :414-423
-        | (c4, some r) => (c4, .ok r)
-        | (c4, none) => finish c4 v
+    orElse (stage rec (!c.o.ndl || !c.o.nec) .strict v c ts) fun c2 =>       -- :382-395
+    orElse (stage rec (!c.o.ndl && !c.o.nec) .noLoss v c2 ts) fun c3 =>      -- :399-411
+    orElse (stage rec true .none v c3 ts) fun c4 =>                          -- :414-423
+    finish c4 v                                                              -- :469
 
 /-- `^` loop (rule.py:434-450); state = (context, threaded value, `xor is not None`).
 `handle_error` sits inside the `try`: what it raises is caught and collected as a tmp error, and then
@@ -384,10 +382,7 @@ def negLoop (rec : P) (v : Val) : Ctx → List Ty → Ctx
 
 def parseComb (W : World) (rec : P) (op : Comb) (ts : List Ty) (c : Ctx) (v : Val) : Ctx × Res Val :=
   match op with
-  | .all =>
-    match allLoop rec c v ts with
-    | (c1, .error x) => (c1, .error x)
-    | (c1, .ok v1) => finish c1 v1            -- :469 (reached since the fix)
+  | .all => andThen (allLoop rec c v ts) finish      -- :469 (reached since the fix)
   | .any => parseAny W rec ts c v
   | .one => parseOne W rec ts c v
   | .neg => finish (negLoop rec v c ts) v
@@ -487,12 +482,9 @@ def dfStep2 (acc : Data) (f : FieldDecl) : Step Data :=
     | none => .keep acc
 
 def dataFirst (rec : P) (decl : List FieldDecl) (c : Ctx) (data : Data) : Ctx × Res Data :=
-  match runLoop (dfStep1 rec c.mode c.o decl) c data ([], []) with
-  | (c1, .error x) => (c1, .error x)
-  | (c1, .ok (res, add)) =>
-    match runLoop dfStep2 c1 decl res with
-    | (c2, .error x) => (c2, .error x)
-    | (c2, .ok res2) => (c2, .ok (res2 ++ add))                 -- :511-512 result.update(addition)
+  andThen (runLoop (dfStep1 rec c.mode c.o decl) c data ([], [])) fun c1 acc =>
+  andThen (runLoop dfStep2 c1 decl acc.1) fun c2 res2 =>
+  (c2, .ok (res2 ++ acc.2))                                     -- :511-512 result.update(addition)
 
 /-- field loop of `field_first_parse` (base.py:538-590) -/
 def ffStep1 (rec : P) (m : Mode) (o : Opts) (data : Data) (acc : Data) (f : FieldDecl) : Step Data :=
@@ -510,14 +502,10 @@ def ffStep2 (o : Opts) (decl : List FieldDecl) (acc : Data × Data) (kv : String
   else additionStep o acc kv
 
 def fieldFirst (rec : P) (decl : List FieldDecl) (c : Ctx) (data : Data) : Ctx × Res Data :=
-  match runLoop (ffStep1 rec c.mode c.o data) c decl [] with
-  | (c1, .error x) => (c1, .error x)
-  | (c1, .ok res) =>
-    if c.o.addition.isSome then                                -- :605 `if options.addition is not None`
-      match runLoop (ffStep2 c.o decl) c1 data (res, []) with
-      | (c2, .error x) => (c2, .error x)
-      | (c2, .ok (res2, add)) => (c2, .ok (res2 ++ add))
-    else (c1, .ok res)
+  andThen (runLoop (ffStep1 rec c.mode c.o data) c decl []) fun c1 res =>
+  if c.o.addition.isSome then                                  -- :605 `if options.addition is not None`
+    andThen (runLoop (ffStep2 c.o decl) c1 data (res, [])) fun c2 acc => (c2, .ok (acc.1 ++ acc.2))
+  else (c1, .ok res)
 
 /-- `parse_data` (base.py:352-387; max_params/min_params not in the fragment) -/
 def parseData (rec : P) (decl : List FieldDecl) (c : Ctx) (data : Data) : Ctx × Res Data :=
@@ -525,14 +513,10 @@ def parseData (rec : P) (decl : List FieldDecl) (c : Ctx) (data : Data) : Ctx ×
 
 /-- `BaseParser.__call__` (base.py:342-350): a fresh context, `parse_data`, `context.raise_error()` -/
 def run (W : World) (fuel : Nat) (decl : List FieldDecl) (m : Mode) (o : Opts) (data : Data) : Res Data :=
-  match parseData (parse W fuel) decl (clean0 m o) data with
-  | (_, .error x) => .error x
-  | (c, .ok r) => (finish c r).2
+  (andThen (parseData (parse W fuel) decl (clean0 m o) data) finish).2
 
 def runLegacy (W : World) (fuel : Nat) (decl : List FieldDecl) (m : Mode) (o : Opts) (data : Data) : Res Data :=
-  match parseData (parseLegacy W fuel) decl (clean0 m o) data with
-  | (_, .error x) => .error x
-  | (c, .ok r) => (finish c r).2
+  (andThen (parseData (parseLegacy W fuel) decl (clean0 m o) data) finish).2
 
 /-! ### Specification vocabulary (independent of the loops above)
 
